@@ -239,8 +239,11 @@ def collect(
         )
     )
     new._cache.derived_from = table._cache.derived_from | {new._ast}
-    # the UUIDs of the grouping columns are preserved, so the grouping state carries over
-    new._cache.partition_by = list(table._cache.partition_by)
+
+    # The UUIDs of the grouping columns are preserved. Re-apply the grouping as a verb, so
+    # that it is part of the new table's AST (the backends read it from there).
+    if table._cache.partition_by:
+        new = new >> group_by(*(new._cache.cols[uid] for uid in table._cache.partition_by))
 
     return new
 
